@@ -81,6 +81,17 @@ func c05Exec(in []string) []string {
 		recs[i] = denco.NewRecord(k, i)
 	}
 	rt := denco.New()
+	// SizeHint is a documented knob (capacity of the parameter slice only): preset it for three
+	// quarters of the inputs, chosen by a checksum of the input so that a case replays identically
+	sum := 0
+	for _, f := range in {
+		for i := 0; i < len(f); i++ {
+			sum += int(f[i])
+		}
+	}
+	if h := sum % 4; h > 0 {
+		rt.SizeHint = []int{0, 0, 1, 3}[h]
+	}
 	if err := rt.Build(recs); err != nil {
 		switch {
 		case strings.Contains(err.Error(), "duplicated"):
